@@ -137,9 +137,9 @@ type c16op struct {
 
 func c16n(tier string) int {
 	if tier == "thorough" {
-		return 60000
+		return 400000
 	}
-	return 1500
+	return 6000
 }
 
 func c16traceOf(calls []rec.Call) []string {
